@@ -210,7 +210,10 @@ class _RootNameCollector(cst.CSTVisitor):
             if self._in_target == 0:
                 self.names.add(chain[0])
             return False
-        return True
+        # Not a pure chain (e.g. ``type(var_0).__module__``): the attribute name is a
+        # member name, only the expression it is taken from can read variables.
+        node.value.visit(self)
+        return False
 
     def visit_Name(self, node: cst.Name) -> bool:  # noqa: N802
         if self._in_target == 0:
